@@ -25,7 +25,12 @@ def mk_array_dim_dict(case):
 
 def spellings(case, k):
     e = case["eids"][k]
-    return {"alias": case["aliases"][k], "subvar_id": case["sids"][k], "element_id": e, "element_id_str": str(e)}
+    sp = {"alias": case["aliases"][k], "subvar_id": case["sids"][k], "element_id": e, "element_id_str": str(e)}
+    if k not in case["eids"]:
+        # "a number that is no element id is taken as a zero-based position"
+        sp["position"] = k
+        sp["position_str"] = str(k)
+    return sp
 
 
 def gen_case(rnd):
@@ -35,7 +40,7 @@ def gen_case(rnd):
     sids = rnd.choice([["0001", "0002", "0003"], ["a1", "b2", "c3"], ["0007", "0005", "0006"]])[:n]
     aliases = ["x_1", "x_2", "x_3"][:n]
     k = rnd.randrange(n)
-    sp = rnd.choice(["alias", "subvar_id", "element_id", "element_id_str"])
+    sp = rnd.choice(["alias", "subvar_id", "element_id", "element_id_str", "position", "position_str"])
     slot = rnd.choice(["hide", "rename", "explicit", "fixed_top", "fixed_bottom"])
     stale = rnd.choice([None, "zzz", 99, "99", "0099"])
     k2 = rnd.randrange(n)
@@ -107,6 +112,8 @@ class ArrayItemReferences(EnumContract):
             return True
 
         sp = spellings(case, k)
+        if case["sp"] not in sp:
+            case = dict(case, sp="alias")
         ref = sp[case["sp"]]
         ref2 = spellings(case, k2)["alias"]
         canon = spellings(case, k)["alias"]
